@@ -5,8 +5,9 @@ history (op path); the live agent of a state is rebuilt by re-executing its path
 constructor (agents cannot be deep-copied faithfully: theta_0 is a non-leaf tensor). Histories whose
 agents are bit-identical (same structural ops, same weights / sigma_inv / optimiser state / reference)
 are merged. `act` and architecture mutations are undone in place (attribute bindings and sigma_inv content
-restored, bitwise state hash re-verified), pure ops (clone, save->load) leave the parent untouched (hash
-re-verified), every other op gets a freshly rebuilt agent.
+and the `.grad` buffers restored, bitwise state hash re-verified), pure ops (clone, save->load) leave the parent
+untouched (hash re-verified), every other op gets a freshly rebuilt agent. `.grad` buffers are not part of the
+state hash; their real content flows from op to op exactly as in a plain execution of the history.
 
 Reference model (independent of the implementation): a float64 Gram matrix A = lambda*I + sum v v^T over
 the arms chosen since the matrix was last (re)initialised, v recomputed with torch.autograd.grad on the
@@ -437,6 +438,22 @@ def ops_for(agent, cfg, alpha):
     return acts, pure, destr
 
 
+def grads_save(agent):
+    """`.grad` buffers are scratch space of the library, not part of the hashed agent state, but the real flow of their
+    content from op to op is kept: an undo puts back exactly what the op found (None included)."""
+    ps = {}
+    for mod in (agent.actor, getattr(agent, "exp_layer", None)):
+        if mod is not None:
+            for w in mod.parameters():
+                ps[id(w)] = w
+    return [(w, None if w.grad is None else w.grad.detach().clone()) for w in ps.values()]
+
+
+def grads_restore(saved):
+    for w, g in saved:
+        w.grad = None if g is None else g.clone()
+
+
 class Node:
     __slots__ = ("path", "A", "h", "meta")
 
@@ -544,11 +561,24 @@ class Explorer:
         node = Node([], A, state_hash(agent, A), {"had_act": False, "resize": None})
         return agent, node
 
-    def rebuild(self, node):
+    def rebuild(self, node, p=None):
         agent = build(self.cfg)
         for d, op in enumerate(node.path):
             agent, _ = raw_apply(self.cx, agent, op, d)
         if state_hash(agent, node.A) != node.h:
+            # The property oracle speaks first: judge the history once more from a fresh agent. Only if it finds nothing
+            # is the mismatch a loss of control of the harness.
+            tmp = Partial()
+            a2, n2 = self.root(tmp)
+            for op in node.path:
+                if n2 is None:
+                    break
+                a2, n2 = self.step(tmp, a2, n2, op)
+            if tmp.violations and p is not None:
+                for v in tmp.violations:
+                    p.viol(v["key"], v["what"], v["replay"], v.get("observed"), v.get("expected"))
+                p.extra["histories_dropped_after_violation_on_reexecution"] += 1
+                return None
             raise HarnessError(f"re-execution of path {node.path} gave a different agent state (non-deterministic harness)")
         return agent
 
@@ -644,7 +674,9 @@ class Explorer:
     def expand(self, p, node, alpha, agent=None):
         children = []
         if agent is None:
-            agent = self.rebuild(node)
+            agent = self.rebuild(node, p)
+            if agent is None:
+                return children
         acts, pure, destr = ops_for(agent, self.cfg, alpha)
         # architecture mutations work on a clone of the actor and only re-bind attributes of the agent, so they are
         # undone like act (attribute bindings + sigma_inv content restored, bitwise state hash re-verified)
@@ -654,27 +686,35 @@ class Explorer:
             S_obj = agent.sigma_inv
             S_saved = S_obj.detach().clone()
             d_saved = dict(agent.__dict__)
+            g_saved = grads_save(agent)
             _, child = self.step(p, agent, node, op)
             p.transitions += 1
             agent.__dict__.clear()
             agent.__dict__.update(d_saved)
             with torch.no_grad():
                 S_obj.copy_(S_saved)
+            grads_restore(g_saved)
             if state_hash(agent, node.A) != node.h:
-                raise HarnessError(f"undo of {op} failed at path {node.path}")
+                agent = self.rebuild(node, p)  # undo not exact: fall back to a re-execution of the history
+                if agent is None:
+                    return children
             if child is not None:
                 children.append(child)
         for op in pure:
             _, child = self.step(p, agent, node, op)
             p.transitions += 1
             if state_hash(agent, node.A) != node.h:
-                raise HarnessError(f"pure op {op} modified its parent agent at path {node.path}")
+                agent = self.rebuild(node, p)
+                if agent is None:
+                    return children
             if child is not None:
                 children.append(child)
         dirty = False
         for op in destr:
             if dirty:
-                agent = self.rebuild(node)
+                agent = self.rebuild(node, p)
+                if agent is None:
+                    return children
             dirty = True
             _, child = self.step(p, agent, node, op)
             p.transitions += 1
